@@ -419,13 +419,13 @@ theorem findUnchecked_nil (code f : Nat) : findUnchecked code f [] = .ok none :=
 
 /-- **eor_iff.** `is_eor()` answers `Some(family)` in exactly two situations:
 the 23-octet UPDATE (IPv4 unicast), or a message without conventional sections
-and without an MP_REACH_NLRI attribute whose MP_UNREACH_NLRI iterator – of the
-family the answer names – yields nothing. -/
+and without an MP_REACH_NLRI attribute whose (first) MP_UNREACH_NLRI – of the
+family the answer names, supported or not – holds no octet after AFI/SAFI. -/
 theorem eor_iff (m : Msg) (k : Nat × Nat) :
     m.isEor = .ok (some k) ↔
       (m.length = 23 ∧ k = (1, 1)) ∨
       (m.length ≠ 23 ∧ m.wd = [] ∧ m.ann = [] ∧ m.hasMpNlri = .ok false ∧
-        ∃ ty bs, m.mpWd = .ok (some (ty, bs)) ∧ (enumItems ty bs).1 = [] ∧ k = ty.afiSafi) := by
+        ∃ ty, m.mpWd = .ok (some (ty, [])) ∧ k = ty.afiSafi) := by
   unfold Msg.isEor
   by_cases h23 : m.length = 23
   · simp only [h23, ↓reduceIte, Outcome.ok.injEq, Option.some.injEq, true_and, ne_eq, not_true_eq_false,
@@ -439,8 +439,8 @@ theorem eor_iff (m : Msg) (k : Nat × Nat) :
       | some p =>
         obtain ⟨ty, bs⟩ := p
         simp only [Outcome.ok.injEq, Option.some.injEq, Prod.mk.injEq]
-        by_cases hc : ((enumItems ty bs).1.isEmpty && m.wd.isEmpty && m.ann.isEmpty) = true
-        · have hc' : (enumItems ty bs).1 = [] ∧ m.wd = [] ∧ m.ann = [] := by
+        by_cases hc : (bs.isEmpty && m.wd.isEmpty && m.ann.isEmpty) = true
+        · have hc' : bs = [] ∧ m.wd = [] ∧ m.ann = [] := by
             simpa [Bool.and_eq_true, List.isEmpty_iff, and_assoc] using hc
           obtain ⟨h1, h2, h3⟩ := hc'
           rw [if_pos hc]
@@ -451,28 +451,30 @@ theorem eor_iff (m : Msg) (k : Nat × Nat) :
             | false =>
               simp only [Outcome.ok.injEq, Option.some.injEq, true_and]
               constructor
-              · intro h; exact ⟨ty, bs, ⟨rfl, rfl⟩, h1, h.symm⟩
-              · rintro ⟨ty', bs', ⟨rfl, rfl⟩, _, rfl⟩; rfl
+              · intro h; exact ⟨ty, ⟨rfl, h1⟩, h.symm⟩
+              · rintro ⟨ty', ⟨rfl, _⟩, rfl⟩; rfl
             | true => simp
           | err => simp
           | panic => simp
         · simp only [hc, Bool.false_eq_true, ↓reduceIte, Outcome.ok.injEq, reduceCtorEq, false_iff, not_and,
             not_exists]
-          intro h2 h3 _ ty' bs' heq h1
-          obtain ⟨rfl, rfl⟩ := heq
+          intro h2 h3 _ ty' heq
+          obtain ⟨rfl, h1⟩ := heq
           exact absurd (by simp [h1, h2, h3]) hc
     | err => simp
     | panic => simp
 
 /-- **eor_no_nlri.** A message that carries NLRI – a non-empty conventional
-section, an MP_REACH_NLRI attribute, or an MP_UNREACH_NLRI whose iterator yields
-an item – is never reported as End-of-RIB. For every message, whatever its bytes. -/
+section, an MP_REACH_NLRI attribute, or an MP_UNREACH_NLRI with at least one
+octet of withdrawn routes after AFI/SAFI, of ANY address family (also one
+routecore has no NLRI type for) – is never reported as End-of-RIB. For every
+message, whatever its bytes. -/
 theorem eor_no_nlri (m : Msg) (k : Nat × Nat)
     (h : m.wd ≠ [] ∨ m.ann ≠ [] ∨ m.hasMpNlri = .ok true ∨
-      ∃ ty bs, m.mpWd = .ok (some (ty, bs)) ∧ (enumItems ty bs).1 ≠ []) :
+      ∃ ty bs, m.mpWd = .ok (some (ty, bs)) ∧ bs ≠ []) :
     m.isEor ≠ .ok (some k) := by
   intro he
-  rcases (eor_iff m k).mp he with ⟨h23, _⟩ | ⟨_, hw, ha, hh, ty, bs, hm, he', _⟩
+  rcases (eor_iff m k).mp he with ⟨h23, _⟩ | ⟨_, hw, ha, hh, ty, hm, _⟩
   · -- a 23-octet message has three empty sections
     have hwd : m.wd = [] := by
       cases hx : m.wd with
@@ -497,8 +499,17 @@ theorem eor_no_nlri (m : Msg) (k : Nat × Nat)
     · rw [hh] at h; cases h
     · rw [hm] at h
       simp only [Outcome.ok.injEq, Option.some.injEq, Prod.mk.injEq] at h
-      obtain ⟨rfl, rfl⟩ := h
-      exact hne he'
+      obtain ⟨_, rfl⟩ := h
+      exact hne rfl
+
+/-- the same with "carries NLRI" read off the iterator: an MP_UNREACH_NLRI whose
+iterator yields an item (only a supported family's does) holds octets -/
+theorem eor_no_nlri_items (m : Msg) (k : Nat × Nat) (ty : NlriTy) (bs : Bytes)
+    (hm : m.mpWd = .ok (some (ty, bs))) (hi : (enumItems ty bs).1 ≠ []) : m.isEor ≠ .ok (some k) := by
+  refine eor_no_nlri m k (.inr (.inr (.inr ⟨ty, bs, hm, ?_⟩)))
+  rintro rfl
+  have := (enumItems_spec ty []).2.1
+  exact hi (List.eq_nil_of_length_eq_zero (by simpa using this))
 
 /-- **eor_marker_recognised.** The End-of-RIB marker of each of the 13 families
 (an UPDATE holding nothing but an MP_UNREACH_NLRI with AFI/SAFI and no
@@ -553,8 +564,6 @@ theorem eor_marker_recognised (cfg : Cfg) (f : Fam) (fl : UInt8) (trail : Bytes)
     have := encRaw_length_ge a
     rw [hlen, e2]
     omega
-  refine (eor_iff m (famCode f)).mpr (.inr ⟨h23, hwd, han, hhas, _, _, hmw, ?_, rfl⟩)
-  have := (enumItems_spec (.known f m.ppi.mpUnreach) []).2.1
-  simpa using this
+  exact (eor_iff m (famCode f)).mpr (.inr ⟨h23, hwd, han, hhas, _, hmw, rfl⟩)
 
 end Rc.Upd.Raw
